@@ -1,4 +1,5 @@
 //! Verification harness for vrl: binds the TLA+ specification in /verif/spec to the real code.
+mod algebra;
 mod core;
 mod enc;
 mod render;
@@ -189,12 +190,26 @@ fn cmd_threads(args: &Args) {
     });
 }
 
+/// Generic driver: one case per line in, one (or more) events per case out.
+fn cmd_map(args: &Args, f: fn(&J) -> Vec<J>) {
+    let cases = read_ndjson(args.req("cases"));
+    std::panic::set_hook(Box::new(|_| {}));
+    sharded(cases, args.num("shards", 1), args.req("out"), |_, part, w| {
+        for case in part {
+            for ev in f(case) {
+                writeln!(w, "{ev}").unwrap();
+            }
+        }
+    });
+}
+
 fn main() {
     let args = parse_args();
     match args.cmd.as_str() {
         "core" => cmd_core(&args),
         "unused" => cmd_unused(&args),
         "threads" => cmd_threads(&args),
+        "values" => cmd_map(&args, |c| vec![algebra::value_case(c)]),
         "nfn" => println!("{}", vrl::stdlib::all().len()),
         _ => {
             eprintln!("usage: vh <core|...> [--opt value]...");
